@@ -145,6 +145,28 @@ pub struct SubReport { pub name: String, pub stats: SubStats }
 type RunFn = Box<dyn Fn(&RunCfg, &str) -> SubStats + Send + Sync>;
 type ReplayFn = Box<dyn Fn(&Value) -> Result<Verdict, String> + Send + Sync>;
 
+thread_local! { static SHRINK_ITERS: std::cell::Cell<u32> = const { std::cell::Cell::new(4000) }; }
+
+/// Result of running a closure on a worker thread under a deadline (used only where termination is part of the property).
+pub enum Timed<T> { Done(T), Panicked(String), Hang }
+static HANGS: Mutex<BTreeMap<String, u32>> = Mutex::new(BTreeMap::new());
+
+/// Run `f` on its own thread. First observations of an entry point get `deadline`; once an entry point (`key`) has hung,
+/// later calls get a 500 ms deadline, and after 6 hangs it is no longer executed at all (each hang leaves a spinning thread).
+pub fn timed<T: Send + 'static>(key: &str, deadline: std::time::Duration, f: impl FnOnce() -> T + Send + 'static) -> Timed<T> {
+    let seen = HANGS.lock().unwrap().get(key).cloned().unwrap_or(0);
+    if seen >= 6 { return Timed::Hang; }
+    let dl = if seen > 0 { std::time::Duration::from_millis(500) } else { deadline };
+    let (tx, rx) = std::sync::mpsc::channel();
+    let h = std::thread::Builder::new().stack_size(32 << 20).spawn(move || { let r = catch(f); let _ = tx.send(r); });
+    if h.is_err() { return Timed::Panicked("could not spawn worker thread".into()); }
+    match rx.recv_timeout(dl) {
+        Ok(Ok(v)) => Timed::Done(v),
+        Ok(Err(p)) => Timed::Panicked(p),
+        Err(_) => { *HANGS.lock().unwrap().entry(key.to_string()).or_insert(0) += 1; Timed::Hang }
+    }
+}
+
 pub struct Sub {
     pub name: &'static str,
     pub run: RunFn,
@@ -249,8 +271,9 @@ impl Sub {
                     if per == 0 { continue; }
                     let sh = &sh; let oracle = &oracle; let strategy = &strategy;
                     std::thread::Builder::new().stack_size(64 << 20).spawn_scoped(scope, move || {
+                        if name.ends_with("_timed") { SHRINK_ITERS.with(|c| c.set(150)); }
                         let seed = derive_seed(cfg.seed, &[prop, name], shard);
-                        let config = Config { cases: per as u32, failure_persistence: None, max_shrink_iters: 4000, max_global_rejects: 65536, ..Config::default() };
+                        let config = Config { cases: per as u32, failure_persistence: None, max_shrink_iters: SHRINK_ITERS.with(|c| c.get()), max_global_rejects: 65536, ..Config::default() };
                         let mut runner = TestRunner::new_with_rng(config, TestRng::from_seed(RngAlgorithm::ChaCha, &seed));
                         let strat = strategy(cfg.tier);
                         let failed_once = std::cell::Cell::new(false);
